@@ -679,6 +679,47 @@ fn law_vertices(a: &[f64]) -> Option<(String, String)> {
     None
 }
 
+/// Cubics that are huge against the tolerance (extent / tolerance 5e8..4e9: the cubic-to-quadratic conversion needs
+/// some 500..1500 pieces, far more than anything the other generators reach; `law_vertices` skips runs of more than 4000
+/// vertices). The cubic is a graph x = L t, y = Bernstein(y0..y3)(t), so "on the segment to a tenth of the tolerance"
+/// is an O(1) test per vertex: the vertical deviation is at most sqrt(1 + slope^2) times the distance (seed C05h).
+fn g_large(r: &mut Rng) -> Vec<f64> {
+    let l = *r.pick(&[1e4, 3e4, 1e5, 1.5e5, 1048576.0]);
+    let ratio = *r.pick(&[5e8, 1e9, 2e9, 4e9]);
+    let ys: Vec<f64> = if r.chance(1, 3) { vec![0.0, 0.0, 0.0, l] } else { (0..4).map(|_| r.uniform(-1.0, 1.0) * l).collect() };
+    vec![l, l / ratio, ys[0], ys[1], ys[2], ys[3]]
+}
+fn law_large(a: &[f64]) -> Option<(String, String)> {
+    let (l, tol) = (a[0], a[1]);
+    let ys = &a[2..6];
+    let c = CubicBez::new((0.0, ys[0]), (l / 3.0, ys[1]), (2.0 * l / 3.0, ys[2]), (l, ys[3]));
+    let els = [PathEl::MoveTo(c.p0), PathEl::CurveTo(c.p1, c.p2, c.p3)];
+    let out = run_flatten(&els, tol);
+    if out.len() < 2 || out[out.len() - 1] != PathEl::LineTo(c.p3) {
+        return fail("vertices:end-point:cubic:large-ratio", format!("run of {:?} at tol={} ends with {:?}", c, tol, out.last()));
+    }
+    let slope = 3.0 * (ys[1] - ys[0]).abs().max((ys[2] - ys[1]).abs()).max((ys[3] - ys[2]).abs()) / l;
+    let bound = 0.1 * tol * (1.0 + 1e-6) * (1.0 + slope * slope).sqrt() + 1e-13 * l;
+    let mut lastx = 0.0;
+    for (i, e) in out[1..].iter().enumerate() {
+        let v = match pt_of(e) {
+            Some(v) => v,
+            None => return fail("kinds", format!("{:?}", e)),
+        };
+        let t = v.x / l;
+        let mt = 1.0 - t;
+        let y = mt * mt * mt * ys[0] + 3.0 * mt * mt * t * ys[1] + 3.0 * mt * t * t * ys[2] + t * t * t * ys[3];
+        if !(v.x.is_finite() && v.y.is_finite()) || v.x < lastx - 1e-13 * l || !(-1e-13..=1.0 + 1e-13).contains(&t) || (v.y - y).abs() > bound {
+            return fail(
+                "vertices:off-segment:cubic:large-ratio",
+                format!("vertex {} = {:?} of the run ({} vertices) of {:?} at tol={}: the segment has y = {} at that abscissa (allowed deviation {:e}, previous abscissa {})", i, v, out.len(), c, tol, y, bound, lastx),
+            );
+        }
+        lastx = v.x;
+    }
+    None
+}
+
 /// curves of the sub-domain the distance bound is claimed for: tolerance <= 1e-3 x extent,
 /// minimum speed >= 5% of the maximum speed
 fn g_hausdorff(r: &mut Rng) -> Vec<f64> {
@@ -930,6 +971,9 @@ fn law_vertices_c(a: &[f64]) -> Option<(String, String)> {
 fn law_hausdorff_c(a: &[f64]) -> Option<(String, String)> {
     capped(law_hausdorff, a)
 }
+fn law_large_c(a: &[f64]) -> Option<(String, String)> {
+    capped(law_large, a)
+}
 fn law_scale_c(a: &[f64]) -> Option<(String, String)> {
     capped(law_scale, a)
 }
@@ -940,6 +984,7 @@ fn laws() -> Vec<Law> {
         Law { name: "vertices", gen: g_curve_tol, check: law_vertices_c, weight: 4 },
         Law { name: "hausdorff", gen: g_hausdorff, check: law_hausdorff_c, weight: 2 },
         Law { name: "scale", gen: g_scale, check: law_scale_c, weight: 3 },
+        Law { name: "vertices_large", gen: g_large, check: law_large_c, weight: 1 },
     ]
 }
 
